@@ -266,3 +266,116 @@ Proof.
   - repeat constructor.
   - unfold NoDupKeys. cbn. repeat constructor; cbn; intuition discriminate.
 Qed.
+
+(* the other clauses of Wf are necessary as well *)
+Definition ex_joined : tree := [ {| e_key := [[97; 47; 98]]; e_meta := None; e_hash := Some (s_md5, ex_h) |} ].
+Definition ex_split : tree := [ {| e_key := [[97]; [98]]; e_meta := None; e_hash := Some (s_md5, ex_h) |} ].
+
+(* a part containing the separator: ("a/b",) and ("a","b") *)
+Theorem as_bytes_inj_separator_refuted :
+  exists t t', NoDupKeys t /\ NoDupKeys t' /\
+    as_bytes false t = as_bytes false t' /\ ~ Permutation (map obs t) (map obs t').
+Proof.
+  exists ex_joined, ex_split. split; [|split; [|split]].
+  - unfold NoDupKeys. cbn. repeat constructor. intros [].
+  - unfold NoDupKeys. cbn. repeat constructor. intros [].
+  - vm_compute. reflexivity.
+  - intros P. apply Permutation_length_1 in P. discriminate.
+Qed.
+
+(* a hash algorithm called "relpath": its value is overwritten by the path *)
+Definition ex_rp1 : tree := [ {| e_key := [[97]]; e_meta := None; e_hash := Some (s_relpath, ex_h) |} ].
+Definition ex_rp2 : tree := [ {| e_key := [[97]]; e_meta := None; e_hash := Some (s_relpath, [50]) |} ].
+
+Theorem as_bytes_inj_relpath_name_refuted :
+  exists t t', KeysOk t /\ KeysOk t' /\ NoDupKeys t /\ NoDupKeys t' /\
+    as_bytes false t = as_bytes false t' /\ ~ Permutation (map obs t) (map obs t').
+Proof.
+  exists ex_rp1, ex_rp2. split; [|split; [|split; [|split; [|split]]]].
+  - repeat constructor.
+  - repeat constructor.
+  - unfold NoDupKeys. cbn. repeat constructor. intros [].
+  - unfold NoDupKeys. cbn. repeat constructor. intros [].
+  - vm_compute. reflexivity.
+  - intros P. apply Permutation_length_1 in P. discriminate.
+Qed.
+
+(* ------------------------------------------------------------------ Tree.load of an md5-dos2unix store *)
+(* Tree.load passes hash_name = "md5-dos2unix" for a legacy store: the hash is then read from the
+   "md5" field and re-labelled; the observable pairs are the same again *)
+Definition md5_valued (o : key * hash_info) : Prop := exists v, snd o = Some (s_md5, v) /\ v <> [].
+
+Definition ent_d2u (o : key * hash_info) : entry :=
+  {| e_key := fst o; e_meta := Some (meta_from_dict (hdict_of (snd o)));
+     e_hash := match snd o with Some (_, v) => Some (s_md5_dos2unix, v) | None => None end |}.
+
+Lemma from_list_entry_canon_d2u o : wf_obs o = true -> md5_valued o ->
+  from_list_entry (Some s_md5_dos2unix) (canon o) = inl (ent_d2u o).
+Proof.
+  destruct o as [k h]. unfold wf_obs, wf_key, md5_valued. cbn [fst snd]. intros H [v [-> _]].
+  apply andb_true_iff in H as [Hk _]. apply andb_true_iff in Hk as [Hk _].
+  pose proof (split_join k Hk) as Ek. unfold ent_d2u. cbn [fst snd].
+  assert (Hn : s_md5 <> s_relpath) by discriminate.
+  rewrite (canon_some k s_md5 v Hn).
+  change (lex_leb s_md5 s_relpath) with true. cbv iota.
+  unfold from_list_entry.
+  destruct (dict_ops_left s_md5 v (relpath k) Hn) as [-> ->]. now rewrite Ek.
+Qed.
+
+Lemma from_list_go_canon_d2u S : forall acc,
+  Forall (fun o => wf_obs o = true) S -> Forall md5_valued S ->
+  from_list_go (Some s_md5_dos2unix) (map canon S) acc =
+  FlOk (fold_left (fun t e => add e t) (map ent_d2u S) acc).
+Proof.
+  induction S as [|o S IH]; intros acc H Hm; [reflexivity|].
+  inversion H as [|? ? Ho HS]; subst. inversion Hm as [|? ? Hmo HmS]; subst.
+  cbn [map from_list_go fold_left].
+  rewrite (from_list_entry_canon_d2u o Ho Hmo). now apply IH.
+Qed.
+
+Lemma obs_ent_d2u o : md5_valued o -> obs (ent_d2u o) = o.
+Proof.
+  destruct o as [k h]. intros [v [E Hv]]. cbn [snd] in E. subst h.
+  unfold obs, ent_d2u. cbn [e_key e_hash fst snd]. f_equal.
+  destruct v as [|c v]; [contradiction|]. reflexivity.
+Qed.
+
+Theorem from_bytes_as_bytes_d2u t : Wf t -> NoDupKeys t ->
+  (forall e, In e t -> md5_valued (obs e)) ->
+  exists t', from_bytes (Some s_md5_dos2unix) (as_bytes false t) = FlOk t' /\
+    map obs t' = sorted_obs t /\ Permutation (map obs t') (map obs t) /\
+    as_bytes false t' = as_bytes false t /\ digest t' = digest t.
+Proof.
+  intros Hw Hn Hm. exists (map ent_d2u (sorted_obs t)).
+  assert (HmS : Forall md5_valued (sorted_obs t)).
+  { eapply Permutation_Forall; [symmetry; apply sorted_obs_perm|].
+    rewrite Forall_map. apply Forall_forall. exact Hm. }
+  assert (Ho : map obs (map ent_d2u (sorted_obs t)) = sorted_obs t).
+  { rewrite map_map. rewrite <- (map_id (sorted_obs t)) at 2. apply map_ext_in.
+    intros o Hin. apply obs_ent_d2u. rewrite Forall_forall in HmS. now apply HmS. }
+  assert (Hp : Permutation (map obs (map ent_d2u (sorted_obs t))) (map obs t)).
+  { rewrite Ho. apply sorted_obs_perm. }
+  assert (Hb : as_bytes false (map ent_d2u (sorted_obs t)) = as_bytes false t).
+  { symmetry. apply as_bytes_obs; [|now symmetry].
+    apply NoDupKeys_relpaths; [now apply Wf_KeysOk | exact Hn]. }
+  repeat split; try assumption.
+  - unfold from_bytes. rewrite (parse_as_bytes t Hw). unfold from_list.
+    rewrite from_list_go_canon_d2u; [|now apply Wf_sorted_obs|exact HmS].
+    f_equal. apply tree_of_list_nodup.
+    unfold NoDupKeys. rewrite map_map. cbn [ent_d2u e_key].
+    assert (E : map (fun x : key * hash_info => fst x) (sorted_obs t) = map fst (sorted_obs t)) by reflexivity.
+    rewrite E. eapply Permutation_NoDup; [apply Permutation_map; symmetry; apply sorted_obs_perm|].
+    rewrite map_map. exact Hn.
+  - now apply digest_bytes.
+Qed.
+
+Definition ex_md5_tree : tree :=
+  [ {| e_key := [[98]; [120]]; e_meta := None; e_hash := Some (s_md5_dos2unix, ex_h) |};
+    {| e_key := [[97]]; e_meta := None; e_hash := Some (s_md5, ex_h) |} ].
+Example ex_md5_tree_ok : Wf ex_md5_tree /\ NoDupKeys ex_md5_tree /\ forall e, In e ex_md5_tree -> md5_valued (obs e).
+Proof.
+  split; [|split].
+  - repeat constructor.
+  - unfold NoDupKeys. cbn. repeat constructor; cbn; intuition discriminate.
+  - intros e [<-|[<-|[]]]; exists ex_h; split; try reflexivity; discriminate.
+Qed.
